@@ -7,6 +7,7 @@ mod codec;
 mod fanout;
 mod mock;
 mod pubsub;
+mod reqrep;
 mod topic;
 mod wire;
 
@@ -50,6 +51,7 @@ fn main() {
         "topic" => topic::run(&cfg),
         "fanout" => fanout::run(&cfg),
         "pubsub" => pubsub::run(&cfg),
+        "reqrep" => reqrep::run(&cfg),
         other => { eprintln!("unknown suite {other}"); std::process::exit(2); }
     }
 }
@@ -58,6 +60,7 @@ fn main() {
 pub fn dispatch_child(op: &str, input: &[u8]) -> String {
     match op {
         "bdec" => wire::bdec_value(input),
+        "rr" => reqrep::child(input),
         other => codec::child(other, input).unwrap_or_else(|| format!("unknown-op {other}")),
     }
 }
